@@ -252,6 +252,13 @@ class Interp:
         return set(self.e_Tuple(node, fr))
 
     def e_Dict(self, node, fr):
+        if not node.keys and getattr(self.world, 'symbolic_dicts', False) \
+                and not self.spec:
+            # `{}` that will be filled under symbolic keys: an (empty)
+            # symbolic map Val -> Val
+            from .world import SMapCell
+            return SMapCell(S.SMap(z3.K(S.Val, z3.BoolVal(False)),
+                                   z3.K(S.Val, S.NONE_VAL), TVal, TVal))
         d = {}
         for k, v in zip(node.keys, node.values):
             if k is None:
